@@ -263,6 +263,28 @@ PROPS["C18"] = dict(
 )
 
 
+
+PROPS["C20"] = dict(
+    level="exploration",
+    rule=("operation sequences over {set next value (through either handle of the state), subscribe, poll subscriber i once, "
+          "clone the state, drop a state handle, drop a subscriber}, executed on zlink-tokio AND zlink-smol with the harness' "
+          "poll-by-poll executor; ALL sequences up to length 9 (thorough 11) over {set, subscribe, poll0, poll1, drop} with <= 4 "
+          "sets and <= 2 subscribers that end in a poll, plus seeded random sequences (<= 6 sets, 3 subscribers, clones); Once: "
+          "all sequences over {poll, notify, drop notifier} up to length 7; distinct = hash of the sequence"),
+    oracle=("per subscriber: values strictly increasing, all set after it subscribed, each item continues==true; a poll is Pending "
+            "only if the subscriber has already yielded the latest value set since it subscribed; the stream ends only after "
+            "every handle of the state is gone and never before the most recent value was delivered; set/get never panic. Once: "
+            "exactly one item with continues==false then end; dropped notifier => end without item; Pending only before. The "
+            "same oracle is applied to both crates; trace equality between them is counted"),
+    assumptions=["State / Once need no reactor: a no-op waker executor observes every poll result"],
+    floor_quick=100_000, floor_thorough=2_000_000,
+    steps=[
+        dict(layer="native", package="rt", monitor="c20", shards_quick=4, shards_thorough=16),
+        dict(layer="miri", package="rt", monitor="c20", shards_quick=8, shards_thorough=16, budget_quick=160, budget_thorough=1600),
+    ],
+)
+SETUP_EXTRA += [("native", "rt"), ("miri", "rt")]
+
 LEVEL_TEXT = {}
 
 def _na():
